@@ -80,7 +80,7 @@ func c05Taint(e *Env) {
 	w, r := e.W, e.R
 	r.Explainf("C05.taint: starting from RequestHeader/ResponseHeader/Trailer.AppendBytes and following every module helper that receives the output buffer, each operand of an `append(dst, …)` into the header block is a compile-time constant (literal, or package variable with a constant initialiser that nothing in the module writes), the result of the choke point's sanitiser, or one of three named start-line operands; every other line is produced by the choke point appendHeaderLine. Anything else is reported at that append.")
 	choke, sanitiser := c05Choke(w)
-	if choke == nil || sanitiser == nil {
+	if choke == nil || (sanitiser == nil && c05InlineOut(w, choke) == nil) {
 		r.Anchor(rule, "protocol.appendHeaderLine and the sanitiser it applies to its value parameter")
 		return
 	}
@@ -139,7 +139,7 @@ func c05Taint(e *Env) {
 					}
 					if c2, ok := unparen(a).(*ast.CallExpr); ok {
 						if g := calleeOf(info, c2); g != nil {
-							if g.Origin() == sanitiser {
+							if sanitiser != nil && g.Origin() == sanitiser {
 								r.OK(rule, key, pos, desc)
 								continue
 							}
@@ -205,8 +205,9 @@ func c05Sanitiser(e *Env) {
 		r.Anchor(rule, "protocol.appendHeaderLine")
 		return
 	}
-	if sanitiser == nil {
-		r.Fail(rule, w.FuncName(choke.Obj)+":sanitiser-call", w.Pos(choke.Decl.Pos()), "the value is appended as sanitiser(value)", "no `append(dst, f(value)...)` in the choke point: the value does not pass through a sanitising function on its way into the header block")
+	inlineOut := c05InlineOut(w, choke)
+	if sanitiser == nil && inlineOut == nil {
+		r.Fail(rule, w.FuncName(choke.Obj)+":sanitiser-call", w.Pos(choke.Decl.Pos()), "the value is appended as sanitiser(value)", "no `append(dst, f(value)...)` in the choke point and no local sanitised copy of the value: the value does not pass through the sanitising table on its way into the header block")
 	}
 	info := choke.Pkg.TypesInfo
 	cname := w.FuncName(choke.Obj)
@@ -321,6 +322,7 @@ func c05Sanitiser(e *Env) {
 	}
 	// operands of append in the choke point
 	n := 0
+	var inlineAppendPos token.Pos
 	ast.Inspect(choke.Decl.Body, func(nd ast.Node) bool {
 		call, ok := nd.(*ast.CallExpr)
 		if !ok || !isBuiltin(info, call, "append") {
@@ -340,6 +342,9 @@ func c05Sanitiser(e *Env) {
 					r.OK(rule, k, pos, "constant operand")
 				} else if c2, ok := unparen(a).(*ast.CallExpr); ok && sanitiser != nil && calleeOf(info, c2) != nil && calleeOf(info, c2).Origin() == sanitiser {
 					r.OK(rule, k, pos, "value is appended as sanitiser(value)")
+				} else if sanitiser == nil && inlineOut != nil && usedVar(info, a) == inlineOut {
+					inlineAppendPos = call.Pos()
+					r.OK(rule, k, pos, "the sanitised copy of the value is appended")
 				} else {
 					r.Fail(rule, k, pos, "choke point appends only key, constants and sanitiser(value)", "unrecognised operand `"+types.ExprString(a)+"`")
 				}
@@ -348,24 +353,31 @@ func c05Sanitiser(e *Env) {
 		return true
 	})
 	r.Floor(rule, n, 4, "append operands in the choke point")
-	// sanitiser body
-	if sanitiser == nil {
-		return
-	}
-	sfi := w.DeclOf(sanitiser)
-	if sfi == nil || sfi.Decl.Body == nil {
-		r.Anchor(rule, "body of the sanitiser "+sanitiser.FullName())
+	// sanitiser body: the sanitising function, or the choke point itself when it sanitises inline
+	var sfi *core.FuncInfo
+	var in *types.Var
+	sname := ""
+	switch {
+	case sanitiser != nil:
+		sfi = w.DeclOf(sanitiser)
+		if sfi == nil || sfi.Decl.Body == nil {
+			r.Anchor(rule, "body of the sanitiser "+sanitiser.FullName())
+			return
+		}
+		sname = w.FuncName(sanitiser)
+		in = sanitiser.Type().(*types.Signature).Params().At(0)
+	case inlineOut != nil:
+		sfi, in, sname = choke, val, cname+":inline"
+	default:
 		return
 	}
 	sinfo := sfi.Pkg.TypesInfo
-	sname := w.FuncName(sanitiser)
-	ssig := sanitiser.Type().(*types.Signature)
-	in := ssig.Params().At(0)
 	var out *types.Var
 	madeLen := false
 	var mapTable []int
 	mapName := ""
 	fullLoop := false
+	var loopEnd token.Pos
 	for _, st := range sfi.Decl.Body.List {
 		switch x := st.(type) {
 		case *ast.AssignStmt:
@@ -419,6 +431,7 @@ func c05Sanitiser(e *Env) {
 				}
 				if t, nme, ok := byteTable(w, sinfo, ri.X); ok && len(t) == 256 {
 					mapTable, mapName, fullLoop = t, nme, true
+					loopEnd = x.End()
 				}
 			}
 		case *ast.RangeStmt:
@@ -445,18 +458,24 @@ func c05Sanitiser(e *Env) {
 				if ri, ok := unparen(as.Rhs[0]).(*ast.IndexExpr); ok {
 					if t, nme, ok := byteTable(w, sinfo, ri.X); ok && len(t) == 256 {
 						mapTable, mapName, fullLoop = t, nme, true
+						loopEnd = x.End()
 					}
 				}
 			}
 		}
 	}
 	retOK := false
-	ast.Inspect(sfi.Decl.Body, func(nd ast.Node) bool {
-		if rs, ok := nd.(*ast.ReturnStmt); ok && len(rs.Results) == 1 {
-			retOK = out != nil && usedVar(sinfo, rs.Results[0]) == out
-		}
-		return true
-	})
+	if sanitiser == nil {
+		// inline: the copy must be the operand appended, after the rewriting loop
+		retOK = out != nil && out == inlineOut && inlineAppendPos.IsValid() && loopEnd.IsValid() && loopEnd < inlineAppendPos
+	} else {
+		ast.Inspect(sfi.Decl.Body, func(nd ast.Node) bool {
+			if rs, ok := nd.(*ast.ReturnStmt); ok && len(rs.Results) == 1 {
+				retOK = out != nil && usedVar(sinfo, rs.Results[0]) == out
+			}
+			return true
+		})
+	}
 	r.Check(madeLen && retOK, rule, sname+":fresh-buffer", w.Pos(sfi.Decl.Pos()), "sanitiser returns a fresh buffer of len(value)", "the sanitiser does not return `make([]byte, len(val))`; its output is not known to be fully rewritten")
 	r.Check(fullLoop, rule, sname+":full-range-map", w.Pos(sfi.Decl.Pos()), "every output byte is Table[…] written in a loop over the full length", "no full-range loop `out[i] = Table[…]` found")
 	if mapTable != nil {
@@ -470,6 +489,32 @@ func c05Sanitiser(e *Env) {
 		r.Finite += 256
 		r.Check(len(bad) == 0, rule, sname+":table-no-crlf", w.Pos(sfi.Decl.Pos()), mapName+"[i] is neither CR nor LF for all 256 i", "table lets line breaks through: "+strings.Join(bad, ", "))
 	}
+}
+
+// c05InlineOut: when the choke point sanitises the value itself (no separate function), the
+// local it builds with make([]byte, len(value)) and appends instead of the value.
+func c05InlineOut(w *core.World, choke *core.FuncInfo) *types.Var {
+	if choke == nil {
+		return nil
+	}
+	info := choke.Pkg.TypesInfo
+	sig := choke.Obj.Type().(*types.Signature)
+	if sig.Params().Len() != 3 {
+		return nil
+	}
+	val := sig.Params().At(2)
+	var out *types.Var
+	ast.Inspect(choke.Decl.Body, func(n ast.Node) bool {
+		if as, ok := n.(*ast.AssignStmt); ok && len(as.Lhs) == 1 && len(as.Rhs) == 1 {
+			if call, ok := unparen(as.Rhs[0]).(*ast.CallExpr); ok && isBuiltin(info, call, "make") && len(call.Args) == 2 {
+				if lc, ok := unparen(call.Args[1]).(*ast.CallExpr); ok && isBuiltin(info, lc, "len") && usedVar(info, lc.Args[0]) == val {
+					out = usedVar(info, as.Lhs[0])
+				}
+			}
+		}
+		return true
+	})
+	return out
 }
 
 // C05.single — nothing else in the protocol packages assembles header lines.
